@@ -677,6 +677,15 @@ func (m *metadataAPI) ReportLeader(ctx context.Context, req *proto.ReportLeaderO
 				leader, epoch, req.Leader, req.LeaderEpoch))
 	}
 
+	// Only in-sync followers are witnesses of a leader failure: the quorum is
+	// a majority of the ISR excluding the leader.
+	if req.Replica == leader || !partition.inISR(req.Replica) {
+		return status.New(
+			codes.FailedPrecondition,
+			fmt.Sprintf("Replica %s is not an in-sync follower of partition [stream=%s, partition=%d]",
+				req.Replica, req.Stream, req.Partition))
+	}
+
 	m.mu.Lock()
 	failover := m.partitionFailovers[partition]
 	if failover == nil {
@@ -1221,6 +1230,15 @@ func (m *metadataAPI) RemoveFromISR(streamName, replica string, partitionID int3
 	if err := partition.RemoveFromISR(replica); err != nil {
 		return errors.Wrap(err, fmt.Sprintf("failed to remove %s from ISR for partition %s",
 			replica, partition))
+	}
+
+	// A replica which is no longer in sync is no longer a witness of a leader
+	// failure (only relevant on the metadata leader).
+	m.mu.RLock()
+	failover := m.partitionFailovers[partition]
+	m.mu.RUnlock()
+	if failover != nil {
+		failover.removeWitness(replica)
 	}
 
 	partition.SetEpoch(epoch)
